@@ -7,8 +7,10 @@
      names_ok / wf_dir     names are non-empty, contain no '/', are not "." or ".."; sibling directories have distinct names
      selected … mode d cs f: the file f of the directory cs (names below the walked directory d) has a configured extension,
                            is not ignored, and no directory on the way down to it was pruned; "ignored" = matched by an outer spec or by
-                           a spec loaded in a directory between d and cs (mode = true) / in cs itself only (mode = false), the
-                           path being taken relative to the directory of the spec. *)
+                           a spec loaded in a directory between d and cs (both included; mode = true throughout this file), the
+                           path being taken relative to the directory of the spec.
+   The model follows /repo after commit 08d2a28 (repair of finding F8: the relevance test of inner ignore specs compares absolute
+   paths on both sides). *)
 From SF Require Import Base.Prelude Base.Sort Model.Discovery Proofs.DiscoveryP.
 
 (* For every ABSOLUTE spelling (with or without a trailing slash) of a directory, every tree, every oracle, every set of outer
@@ -51,38 +53,58 @@ Theorem C25_spelling_invariance_abs_trailing_slash :
 Proof. intros. apply abs_trailing_slash_same; assumption. Qed.
 Print Assumptions C25_spelling_invariance_abs_trailing_slash.
 
-(* What a RELATIVE spelling does (any non-empty path string not starting with '/': "x", "./x", "x/", ".", "../x"; the working directory
-   is "/c1/../cn"): the same, except that an ignore spec found during the walk applies only to the directory it was found in (and to the
-   pruning of that directory's immediate sub-directories), not to the directories below.  [ohit] = the outer specs matched against the
-   absolute path of the file, [oname] = the yielded (normalised, still relative) name. *)
+(* RELATIVE spellings (any non-empty path string not starting with '/': "x", "./x", "x/", ".", "../x"; the working directory is
+   "/c1/../cn"; the path does not denote the file-system root): since the repair of F8 the walk is characterised exactly as for the
+   absolute spelling of the same directory (parts_of cwd p = its absolute components): inner specs apply in their whole subtree.
+   Only the yielded names differ ([oname] = the normalised, still relative, name). *)
 Theorem C25_walk_spec_rel :
   forall (matches : nat -> list text -> bool) (cwd : text) (ignore_files : bool) (outer : list specrec) (exts : list text)
          (cw : list text) (p : text) (d : dir),
-    cw <> [] -> names_ok cw -> cwd = slashcat cw -> p <> [] -> isabs p = false -> wf_dir d ->
+    cw <> [] -> names_ok cw -> cwd = slashcat cw -> p <> [] -> isabs p = false -> parts_of cwd p <> [] -> wf_dir d ->
     forall rel out,
       In (rel, out) (iter_files_in_path matches cwd ignore_files outer exts d p) <->
       exists cs f, rel = cs ++ [f] /\ out = oname p (cs ++ [f])
-                   /\ selected matches ignore_files exts (ohit matches cwd outer p) false d cs f.
-Proof. intros. eapply walk_spec_rel_lemma; eassumption. Qed.
+                   /\ selected matches ignore_files exts (outer_hit_abs matches cwd outer (parts_of cwd p)) true d cs f.
+Proof. intros matches cwd ignore_files outer exts cw p d. intros. apply (walk_spec_rel_lemma matches cwd ignore_files outer exts cw p d); assumption. Qed.
 Print Assumptions C25_walk_spec_rel.
 
-(* The degenerate reading never loses a file: against the same outer specs, everything the absolute reading selects the relative
-   reading selects too (the defect only ever ADDS files that an inner ignore file should have excluded). *)
-Theorem C25_relative_reading_selects_superset :
-  forall (matches : nat -> list text -> bool) (ignore_files : bool) (exts : list text) (outer_hit : list text -> bool)
-         (d : dir) (cs : list text) (f : text),
-    selected matches ignore_files exts outer_hit true d cs f -> selected matches ignore_files exts outer_hit false d cs f.
-Proof. intros. apply selected_mono; assumption. Qed.
-Print Assumptions C25_relative_reading_selects_superset.
+(* Spelling invariance of the WALK, in full (".." included): against the same outer specs, every relative spelling selects exactly the
+   files that the absolute spelling of the same directory selects. *)
+Theorem C25_spelling_invariance_walk :
+  forall (matches : nat -> list text -> bool) (cwd : text) (ignore_files : bool) (outer : list specrec) (exts : list text)
+         (cw : list text) (p : text) (d : dir),
+    cw <> [] -> names_ok cw -> cwd = slashcat cw -> p <> [] -> isabs p = false -> parts_of cwd p <> [] -> wf_dir d ->
+    forall rel, (exists out, In (rel, out) (iter_files_in_path matches cwd ignore_files outer exts d p))
+                <-> (exists out, In (rel, out) (iter_files_in_path matches cwd ignore_files outer exts d (slashcat (parts_of cwd p)))).
+Proof. intros matches cwd ignore_files outer exts cw p d. intros. apply (walk_spelling_invariance matches cwd ignore_files outer exts cw p d); assumption. Qed.
+Print Assumptions C25_spelling_invariance_walk.
+
+(* Spelling invariance of paths_from_path (outer ignore files included), PARTIAL: for every directory path spelled relatively WITHOUT a
+   ".." component ("x", "./x", "x/", ".", "./", "a//b"), every working path, flags and extensions, the relative spelling and the
+   absolute spelling "/cwd.../x" select the same set of files.  Together with C25_spelling_invariance_abs_trailing_slash this covers all
+   the spellings of the property text (relative, absolute, ".").
+   Missing for the full statement: (1) spellings with ".." - FALSE of the model, see C25_dotdot_spelling_refuted (open finding in
+   iter_intermediate_paths); (2) exact-file targets (_process_exact_path; covered by correspondence and the oracles only); (3) the working
+   directory "/" and paths denoting "/". *)
+Theorem C25_spelling_invariance_partial :
+  forall (matches : nat -> list text -> bool) (cwd : text) (cw : list text) (root : dir) (p : text) (d : dir)
+         (ignore_non_existent_files ignore_files : bool) (working_path : text) (exts : list text),
+    cw <> [] -> names_ok cw -> cwd = slashcat cw -> p <> [] -> isabs p = false -> ~ In dotdot_t (split_on p) ->
+    lookup root (cw ++ pure_parts p) = NDir d -> wf_dir d ->
+    exists l1 l2,
+      paths_from_path_g matches cwd root p ignore_non_existent_files ignore_files working_path exts false = Ok l1 /\
+      paths_from_path_g matches cwd root (slashcat (cw ++ pure_parts p)) ignore_non_existent_files ignore_files working_path exts false = Ok l2 /\
+      forall id, In id (map fst l1) <-> In id (map fst l2).
+Proof. intros matches cwd cw root p d ine ign wp exts. intros. apply (spelling_invariance_nodotdot matches cwd cw root p d ine ign wp exts); assumption. Qed.
+Print Assumptions C25_spelling_invariance_partial.
 
 (* ---------------------------------------------------------------------------------------------------------------------------- *)
-(* Spelling invariance in general is FALSE of the faithful model (finding F8).
+(* Regression pin for finding F8 (repaired in /repo by 08d2a28; before the repair this was C25_spelling_invariance_refuted).
 
-   Witness: /t/src/.sqlfluffignore contains "x.sql"; files /t/src/x.sql and /t/src/sub/x.sql; working directory /t.
-   The oracle table says what pathspec says: the spec matches "x.sql" and "sub/x.sql" (relative to /t/src).
-   paths_from_path("/t") selects nothing; paths_from_path(".") selects /t/src/sub/x.sql: when the walk, spelled relatively, descends
-   from "./src" to "./src/sub", the test  dirname.startswith(os.path.abspath(inner_dirname) + os.sep)  compares "./src/sub" with
-   "/t/src/" and drops the spec. *)
+   /t/src/.sqlfluffignore contains "x.sql"; files /t/src/x.sql and /t/src/sub/x.sql; working directory /t.  The oracle table says what
+   pathspec says: the spec matches "x.sql" and "sub/x.sql" (relative to /t/src).  Before the repair paths_from_path(".") selected
+   src/sub/x.sql (the walk, spelled relatively, compared "./src/sub" with "/t/src/" and dropped the spec) while "/t" selected nothing.
+   Now both select nothing. *)
 Open Scope N_scope.
 Definition w_ignore : text := [46;115;113;108;102;108;117;102;102;105;103;110;111;114;101].  (* .sqlfluffignore *)
 Definition w_x : text := [120;46;115;113;108].                                                (* x.sql *)
@@ -94,34 +116,21 @@ Definition w_cwd : text := [47;116].             (* /t *)
 Definition w_exts : list text := [[46;115;113;108]].
 Close Scope N_scope.
 
-Theorem C25_spelling_invariance_refuted :
-  exists (matches : nat -> list text -> bool) (cwd : text) (root : dir) (p1 p2 : text) (exts : list text),
-    (* both spellings name the same directory ... *)
-    parts_of cwd p1 = parts_of cwd p2 /\
-    (* ... the working path is the working directory in both calls ... *)
-    (* ... and the selected files differ *)
-    selected_ids (paths_from_path_g matches cwd root p1 false true cwd exts false)
-    <> selected_ids (paths_from_path_g matches cwd root p2 false true cwd exts false).
-Proof.
-  exists (tbl_matches w_tbl), w_cwd, w_root, [dot], w_cwd, w_exts.
-  split; [vm_compute; reflexivity|vm_compute; discriminate].
-Qed.
-Print Assumptions C25_spelling_invariance_refuted.
+Theorem C25_f8_witness_repaired :
+  selected_ids (paths_from_path_g (tbl_matches w_tbl) w_cwd w_root [dot] false true w_cwd w_exts false)
+  = selected_ids (paths_from_path_g (tbl_matches w_tbl) w_cwd w_root w_cwd false true w_cwd w_exts false)
+  /\ paths_from_path (tbl_matches w_tbl) w_cwd w_root [dot] false true w_cwd w_exts false = Ok []
+  /\ paths_from_path (tbl_matches w_tbl) w_cwd w_root w_src false true w_cwd w_exts false = Ok [].
+Proof. vm_compute. repeat split. Qed.
+Print Assumptions C25_f8_witness_repaired.
 
-(* what the two spellings select in the witness *)
-Example C25_witness_absolute :
-  paths_from_path (tbl_matches w_tbl) w_cwd w_root w_cwd false true w_cwd w_exts false = Ok [].
-Proof. vm_compute. reflexivity. Qed.
-Example C25_witness_dot :
-  paths_from_path (tbl_matches w_tbl) w_cwd w_root [dot] false true w_cwd w_exts false
-  = Ok [w_src ++ [slash] ++ w_sub ++ [slash] ++ w_x].    (* "src/sub/x.sql" *)
-Proof. vm_compute. reflexivity. Qed.
-(* "src" (one level closer) agrees with the absolute spelling: the ignore file is then in the given directory and is also an OUTER spec *)
-Example C25_witness_src :
-  paths_from_path (tbl_matches w_tbl) w_cwd w_root w_src false true w_cwd w_exts false = Ok [].
+(* without the ignore file the file is selected under both spellings: the pin is not vacuous *)
+Example C25_f8_witness_without_ignore_file :
+  paths_from_path (tbl_matches []) w_cwd w_root [dot] false true w_cwd w_exts false
+  = Ok [w_src ++ [slash] ++ w_sub ++ [slash] ++ w_x; w_src ++ [slash] ++ w_x].
 Proof. vm_compute. reflexivity. Qed.
 
-(* A second way in which the spelling matters: ".." keeps the directories it climbs out of in the search for outer ignore files
+(* The spelling still matters for ".." (OPEN finding, not repaired): ".." keeps the directories it climbs out of in the search for outer ignore files
    (iter_intermediate_paths takes the common path of the UNRESOLVED path), so an ignore file in /t/src/sub is applied to files of /t/src
    when /t/src is spelled ".." from /t/src/sub: pathspec matches the pattern "x.sql" against "../x.sql". *)
 Open Scope N_scope.
